@@ -25,6 +25,7 @@ type E2EPoint struct {
 	Item int
 	Now  bool
 	Date bool   // time stamp from a date group: relative to the (unknown) real play start
+	Log  bool   // ... from a ts_log group (no zone designator: read as UTC)
 	Ns   int64  // relative to EpochSec
 	Num  string // rational "n/d" for numbers
 	Text string
@@ -252,7 +253,7 @@ func writeE2E(rng *rand.Rand, dir string, n int, immediate, small bool) {
 			}
 			for _, p := range f.Points {
 				ep := E2EPoint{Item: p.Item, Now: p.Now, Ns: p.Ns, Text: p.Text,
-					Date: !p.Now && (sd.Group == "rfc3339" || sd.Group == "log")}
+					Date: !p.Now && (sd.Group == "rfc3339" || sd.Group == "log"), Log: !p.Now && sd.Group == "log"}
 				if p.Num != nil {
 					ep.Num = p.Num.String()
 				}
@@ -415,7 +416,9 @@ func checkE2E(dir, out string) {
 		}
 		// the real play start relative to EpochSec, estimated from the rows of
 		// date-stamped signals (median of expected - observed)
-		var offs []int64
+		// ... preferably of the ts_rfc3339 signals, whose stamps name their
+		// zone: the ts_log stamps (no zone: UTC) are then judged against it
+		var offs, offsLog []int64
 		for _, f := range p.Expect {
 			for _, w := range f.Watchers {
 				rs := rows[FileKey{w, f.Actor, f.Sig}]
@@ -424,10 +427,17 @@ func checkE2E(dir, out string) {
 				}
 				for i, pt := range f.Points {
 					if pt.Date && !rs[i].Bad {
-						offs = append(offs, pt.Ns-rs[i].T10k*100000)
+						if pt.Log {
+							offsLog = append(offsLog, pt.Ns-rs[i].T10k*100000)
+						} else {
+							offs = append(offs, pt.Ns-rs[i].T10k*100000)
+						}
 					}
 				}
 			}
+		}
+		if len(offs) == 0 {
+			offs = offsLog
 		}
 		var off int64
 		if len(offs) > 0 {
